@@ -5,6 +5,7 @@ pub mod error;
 mod includes;
 mod inline;
 mod parser;
+mod references;
 pub mod stats;
 mod validator;
 
@@ -105,7 +106,25 @@ impl Compiler {
         let parsed_story = includes::parse_story_with_includes(source, &file_handler, source_name)?;
         let parsed_story = consts::resolve(parsed_story);
         validator::validate(&parsed_story)?;
-        emitter::story_to_json_string(&parsed_story, self.options.count_all_visits)
-            .map_err(|e| CompilerError::invalid_source(e.to_string()))
+        let story_document =
+            emitter::story_to_json_value(&parsed_story, self.options.count_all_visits)
+                .map_err(|e| CompilerError::invalid_source(e.to_string()))?;
+        // Whatever the per-construct checks let through: a story whose paths
+        // do not all lead somewhere is never handed out.
+        references::check_story_references(&story_document).map_err(|dangling| {
+            let error = CompilerError::invalid_source(dangling.to_string()).with_file(source_name);
+            // The emitted tree does not remember source positions; name the
+            // line only when the source leaves no doubt about it.
+            let single_file = !source
+                .lines()
+                .any(|line| line.trim_start().starts_with("INCLUDE "));
+            match references::source_line_of(source, &dangling.target) {
+                Some(line) if single_file => error.with_line(line),
+                _ => error,
+            }
+        })?;
+        serde_json::to_string(&story_document).map_err(|error| {
+            CompilerError::invalid_source(format!("failed to serialize compiled ink: {error}"))
+        })
     }
 }
